@@ -40,6 +40,8 @@ use crate::{
 pub struct ItemDump {
     pub name: String,
     pub is_constant: bool,
+    /// false when the LIR lowerer skips the item (an uninhabited parameter)
+    pub lowered: bool,
     /// the numeric encoding described in the module documentation
     pub nums: Vec<u64>,
     /// printed label of block `i`
@@ -240,6 +242,13 @@ fn dump_item(item: &Item, ctx: &mut LowerCtx<'_>) -> ItemDump {
         let t = types.id(ctx, *t);
         vars.declare(v, t);
     }
+    let lowered = match &item.ty {
+        ItemKind::Function { mir_signature, .. } => mir_signature
+            .parameter_types
+            .iter()
+            .all(|t| ctx.type_info.ty_pool.layout_of(*t, ctx.runtime).is_some()),
+        ItemKind::Constant { .. } => true,
+    };
     let ret_ty = types.id(ctx, ret_ty);
 
     let labels: HashMap<LabelRef, usize> = item
@@ -410,6 +419,7 @@ fn dump_item(item: &Item, ctx: &mut LowerCtx<'_>) -> ItemDump {
     ItemDump {
         name: item.name.as_str().to_string(),
         is_constant: matches!(item.ty, ItemKind::Constant { .. }),
+        lowered,
         nums,
         labels: item.blocks.iter().map(|b| b.label.print(&printer)).collect(),
         vars: vars.order.iter().map(|v| v.print(&printer)).collect(),
